@@ -644,7 +644,7 @@ func (e *Env) call(c *ECall) TV {
 	case "len":
 		tv := e.eval(c.Args[0])
 		if kt, vt, ok := mapKV(tv.T); ok {
-			return TV{UF(SI, "card", st.mapHas(e.toTerm(tv), kt, vt)), nil}
+			return TV{st.mapCard(e.toTerm(tv), kt, vt), nil}
 		}
 		if tv.T != nil && isString(tv.T) {
 			return TV{UF(SI, "str.len", e.toTerm(tv)), nil}
@@ -784,6 +784,10 @@ func (e *Env) call(c *ECall) TV {
 	case "fresh":
 		p := e.toTerm(e.eval(c.Args[0]))
 		return TV{Gt(p, e.oldWM), boolT}
+	case "allocated":
+		// allocated(p): p is an object that exists in the current state (not one a later allocation could return)
+		p := e.toTerm(e.eval(c.Args[0]))
+		return TV{And(Gt(p, TInt(0)), Le(p, st.wmNow())), boolT}
 	case "typeis":
 		v := e.toTerm(e.eval(c.Args[0]))
 		t := e.resolveType(exprKey(c.Args[1]))
@@ -831,6 +835,7 @@ func (e *Env) call(c *ECall) TV {
 					return TV{b, fv.Type()}
 				}
 				pt := fv.Type().(*types.Pointer).Elem()
+				st.assumeLoaded(b, fv.Type()) // the captured variable's cell is an existing object, like any pointer read from memory
 				return TV{st.load(b, pt), pt}
 			}
 		}
@@ -1220,10 +1225,15 @@ func (x *Exec) evalClauseBool(st *State, fr *Frame, cl *Clause, res []TV, pol in
 	e.locals = cl.Kind == "invariant"
 	e.result = res
 	e.pol = pol
-	if cl.Kind == "invariant" && len(fr.rangeIter) == 1 {
+	if cl.Kind == "invariant" && len(fr.rangeIter) >= 1 {
+		// the range statement started last is the one of the loop whose invariant this is
+		var latest *rangeState
 		for _, rs := range fr.rangeIter {
-			e.vars["visited"] = TV{rs.visited, nil}
+			if latest == nil || rs.seq > latest.seq {
+				latest = rs
+			}
 		}
+		e.vars["visited"] = TV{latest.visited, nil}
 	}
 	return x.safeBool(e, cl)
 }
